@@ -18,7 +18,16 @@ class Rec:
         self.__dict__.update(other.__dict__)
 
     def ClearField(self, name):
-        setattr(self, name, [])
+        setattr(self, name, Repeated())
+
+
+class Repeated(list):
+    """a protobuf repeated message field: a list whose add() appends a fresh element and returns it"""
+
+    def add(self):
+        r = Rec(tile=Rec())
+        self.append(r)
+        return r
 
 
 def rec(eng=None, **kw):
@@ -110,7 +119,8 @@ class TileModel(Cacheable):
 
     def __init__(self, ncols):
         self.table = Rec(number_of_rows=0, number_of_columns=0, base_column_row_uids=[1],
-                         base_data_store=Rec(tiles=Rec(tiles=["stale"], tile_size=0, should_use_wide_rows=False)))
+                         base_data_store=Rec(tiles=Rec(tiles=Repeated([Rec(tileid=i, tile=Rec(identifier=900 + i)) for i in range(3)]),
+                                                     tile_size=0, should_use_wide_rows=False)))     # three stale tiles: the table had 600 rows
         self.objects = TileObjects(self.table)
         self.rows_seen = []
         self.registered = []
@@ -155,6 +165,8 @@ def h07b_tiles(n, wide, window):
     m.recalculate_table_data(7, FakeData(n, [None] * ncols))
     tiles = m.table.base_data_store.tiles.tiles
     assert m.table.number_of_rows == n and m.table.number_of_columns == ncols
+    # the table lists exactly the tiles this save created - none left over from a previous, larger state of the table
+    assert len(tiles) == len(m.objects.created)
     total = 0
     for i in range(len(tiles)):
         ref = tiles[i]
